@@ -864,7 +864,7 @@ func splitInlineBox(context *layoutContext, box_ Box, positionX, maxX, bottomSpa
 			maxX -= newFloatWidths.right
 		}
 
-		if lastChild && rightSpacing != 0 && resumeAt == nil {
+		if lastChild && endSpacing != 0 && resumeAt == nil {
 			// TODO: we should take care of children added into absoluteBoxes,
 			// fixedBoxes and other lists.
 			availableWidth -= endSpacing
